@@ -425,6 +425,11 @@ def fuzz_reader(data, known_as_label=True):
     raise fuzz.Failure("fuzzed IR text accepted by read_module as a well-formed module: " + msg + "\n" + text[:1500], bucket)
 
 
+def fuzz_reader_keep(label):
+    """corpus distillation between the rounds of a campaign: go on from texts that ARE well-formed modules"""
+    return label.startswith(("accepted:round-trip-ok", "known:"))
+
+
 def fuzz_reader_mutator(data, max_size, seed, byte_mutate):
     """Mutator for the line-structured IR text (the printer puts one declaration / instruction on a line): 40% libFuzzer's
     byte mutations, 60% line operations (insert a production of FUZZ_DICT, delete / duplicate / swap lines, replace one
